@@ -41,10 +41,10 @@ func GetTimer(t time.Duration) *time.Timer {
 
 func ReleaseTimer(timer *time.Timer) {
 	if !timer.Stop() {
-		select {
-		case <-timer.C:
-		default:
-		}
+		// The timer has fired (or is firing right now). Its tick may still be
+		// delivered after a non-blocking drain, which would make the next user's
+		// timer fire immediately. Do not reuse it.
+		return
 	}
 	timerPool.Put(timer)
 }
